@@ -1,0 +1,92 @@
+// Copyright 2026 Dolthub, Inc.
+//
+// Licensed under the Apache License, Version 2.0 (the "License");
+// you may not use this file except in compliance with the License.
+// You may obtain a copy of the License at
+//
+//     http://www.apache.org/licenses/LICENSE-2.0
+//
+// Unless required by applicable law or agreed to in writing, software
+// distributed under the License is distributed on an "AS IS" BASIS,
+// WITHOUT WARRANTIES OR CONDITIONS OF ANY KIND, either express or implied.
+// See the License for the specific language governing permissions and
+// limitations under the License.
+
+//go:build verif
+
+package binlogreplication
+
+import (
+	"context"
+	"fmt"
+	"sync"
+
+	"github.com/dolthub/go-mysql-server/sql"
+	"github.com/dolthub/vitess/go/mysql"
+
+	"github.com/dolthub/dolt/go/libraries/doltcore/diff"
+	"github.com/dolthub/dolt/go/libraries/doltcore/doltdb"
+	"github.com/dolthub/dolt/go/libraries/doltcore/schema"
+	"github.com/dolthub/dolt/go/store/prolly/tree"
+)
+
+// Exported wrappers (build tag verif only) around the unexported binlog serialization code, for
+// the external verification harness. No behaviour is added.
+
+// VerifSerialize runs the binlog type serializer registered for |typ| on |value|.
+func VerifSerialize(ctx context.Context, typ sql.Type, value interface{}, ns tree.NodeStore) ([]byte, error) {
+	s, ok := typeSerializersMap[typ.Type()]
+	if !ok {
+		return nil, fmt.Errorf("unsupported type: %v (%d)", typ.String(), typ.Type())
+	}
+	return s.serialize(ctx, typ, value, ns)
+}
+
+// VerifMetadata returns the binlog type byte and metadata the serializer registered for |typ| emits.
+func VerifMetadata(ctx *sql.Context, typ sql.Type) (byte, uint16, bool) {
+	s, ok := typeSerializersMap[typ.Type()]
+	if !ok {
+		return 0, 0, false
+	}
+	t, m := s.metadata(ctx, typ)
+	return t, m, true
+}
+
+// VerifSerializeRow is serializeRowToBinlogBytes.
+func VerifSerializeRow(ctx *sql.Context, fromSch, toSch schema.Schema, key, value tree.Item, ns tree.NodeStore) ([]byte, mysql.Bitmap, error) {
+	return serializeRowToBinlogBytes(ctx, fromSch, toSch, key, value, ns)
+}
+
+// VerifTableMap is createTableMapFromDoltTable.
+func VerifTableMap(ctx *sql.Context, databaseName, tableName string, table *doltdb.Table, includeOptionalMetadata bool) (*mysql.TableMap, error) {
+	return createTableMapFromDoltTable(ctx, databaseName, tableName, table, includeOptionalMetadata)
+}
+
+// VerifEncodeJsonDoc is encodeJsonDoc.
+func VerifEncodeJsonDoc(ctx context.Context, jsonDoc sql.JSONWrapper) ([]byte, error) {
+	return encodeJsonDoc(ctx, jsonDoc)
+}
+
+// VerifRowEvents returns the TableMap and row events a binlog primary emits for the change from
+// |before| to |after| (the same createTableMapEvents + createRowEvents calls WorkingRootUpdated
+// makes), together with the binlog format they are framed in.
+func VerifRowEvents(ctx *sql.Context, databaseName string, before, after doltdb.RootValue) ([]mysql.BinlogEvent, mysql.BinlogFormat, error) {
+	b := &binlogProducer{
+		binlogFormat:    createBinlogFormat(),
+		mu:              &sync.Mutex{},
+		binlogEventMeta: mysql.BinlogEventMetadata{ServerID: 1, Timestamp: 1},
+	}
+	tableDeltas, err := diff.GetTableDeltas(ctx, before, after)
+	if err != nil {
+		return nil, *b.binlogFormat, err
+	}
+	tableMapEvents, tablesToId, err := b.createTableMapEvents(ctx, databaseName, tableDeltas)
+	if err != nil {
+		return nil, *b.binlogFormat, err
+	}
+	rowEvents, err := b.createRowEvents(ctx, tableDeltas, tablesToId)
+	if err != nil {
+		return nil, *b.binlogFormat, err
+	}
+	return append(tableMapEvents, rowEvents...), *b.binlogFormat, nil
+}
